@@ -1,9 +1,11 @@
 package main
 
 import (
+	"encoding/json"
 	"fmt"
 	"go/ast"
 	"go/token"
+	"os"
 	"sort"
 	"strings"
 )
@@ -326,7 +328,9 @@ type ordWalker struct {
 	inlined  bool
 }
 
-var structTok = map[string]bool{"if{": true, "}else{": true, "}": true, "for{": true, "select{": true, "switch{": true, "case:": true, "defer{": true}
+var goldenPath = "/verif/cir/skeleton_ordered.json"
+
+var structTok = map[string]bool{"if{": true, "}else{": true, "}": true, "for{": true, "loop{": true, "select{": true, "switch{": true, "case:": true, "default:": true, "defer{": true, "inline{": true}
 
 func (o *ordWalker) flat(n ast.Node) {
 	if n == nil {
@@ -344,11 +348,17 @@ func (o *ordWalker) flat(n ast.Node) {
 				o.out = o.out[:n-1]
 			}
 			o.close(m)
+		} else if inRet {
+			o.stmt(fd.Body) // `return helper(...)`: the helper's returns are the caller's
+			o.inlined = true
 		} else {
+			// a helper rendered in place of its call: its returns end the helper, not the caller
+			m := o.open("inline{")
 			o.stmt(fd.Body)
-			if n := len(o.out); !inRet && n > 0 && o.out[n-1] == "return" {
-				o.out = o.out[:n-1] // the helper's closing return ends the helper, not the caller
+			if n := len(o.out); n > 0 && o.out[n-1] == "return" {
+				o.out = o.out[:n-1]
 			}
+			o.close(m)
 			o.inlined = true
 		}
 		o.inReturn = inRet
@@ -403,7 +413,11 @@ func (o *ordWalker) stmt(s ast.Stmt) {
 		o.close(m)
 	case *ast.ForStmt:
 		o.stmt(s.Init)
-		m := o.open("for{")
+		tok := "for{"
+		if s.Cond == nil {
+			tok = "loop{" // left only by break / return
+		}
+		m := o.open(tok)
 		o.flat(s.Cond)
 		o.stmt(s.Body)
 		o.stmt(s.Post)
@@ -417,12 +431,16 @@ func (o *ordWalker) stmt(s ast.Stmt) {
 		m := o.open("select{")
 		for _, c := range s.Body.List {
 			cc := c.(*ast.CommClause)
-			k := o.open("case:")
+			ctok := "case:"
+			if cc.Comm == nil {
+				ctok = "default:"
+			}
+			k := o.open(ctok)
 			o.stmt(cc.Comm)
 			o.stmts(cc.Body)
 			if k == len(o.out)-1 && cc.Comm != nil {
 				o.out = o.out[:k] // a case without primitives (e.g. <-ctx.Done() with an empty body)
-				o.out = append(o.out, "case:")
+				o.out = append(o.out, ctok)
 			}
 		}
 		o.close(m)
@@ -432,25 +450,27 @@ func (o *ordWalker) stmt(s ast.Stmt) {
 		m := o.open("switch{")
 		for _, c := range s.Body.List {
 			cc := c.(*ast.CaseClause)
-			k := o.open("case:")
+			ctok := "case:"
+			if cc.List == nil {
+				ctok = "default:"
+			}
+			o.open(ctok)
 			for _, e := range cc.List {
 				o.flat(e)
 			}
 			o.stmts(cc.Body)
-			if k == len(o.out)-1 {
-				o.out = o.out[:k]
-			}
 		}
 		o.close(m)
 	case *ast.TypeSwitchStmt:
 		m := o.open("switch{")
 		for _, c := range s.Body.List {
 			cc := c.(*ast.CaseClause)
-			k := o.open("case:")
-			o.stmts(cc.Body)
-			if k == len(o.out)-1 {
-				o.out = o.out[:k]
+			ctok := "case:"
+			if cc.List == nil {
+				ctok = "default:"
 			}
+			o.open(ctok)
+			o.stmts(cc.Body)
 		}
 		o.close(m)
 	case *ast.ReturnStmt:
@@ -476,6 +496,13 @@ func (o *ordWalker) stmt(s ast.Stmt) {
 		o.flat(s)
 	case *ast.GoStmt:
 		o.flat(s)
+	case *ast.BranchStmt:
+		switch s.Tok {
+		case token.BREAK:
+			o.out = append(o.out, "break")
+		case token.CONTINUE:
+			o.out = append(o.out, "continue")
+		}
 	default:
 		o.flat(s)
 	}
@@ -597,18 +624,35 @@ func genSkeleton(p *pkgSrc) (string, error) {
 	}
 	sb.WriteString("]\n\n")
 	ord := genSkeletonOrdered(p)
-	sb.WriteString("/-- per Go function: the same primitives in source order inside their control structure. -/\ndef ordered : List (String × List String) := [\n")
-	for i, n := range names {
-		var q []string
-		for _, t := range ord[n] {
-			q = append(q, leanStr(t))
+	emit := func(doc, name string, keys []string, get func(string) []string) {
+		sb.WriteString("/-- " + doc + " -/\ndef " + name + " : List (String × List String) := [\n")
+		for i, n := range keys {
+			var q []string
+			for _, t := range get(n) {
+				q = append(q, leanStr(t))
+			}
+			sep := ","
+			if i == len(keys)-1 {
+				sep = ""
+			}
+			fmt.Fprintf(&sb, "  (%s, [%s])%s\n", leanStr(n), strings.Join(q, ", "), sep)
 		}
-		sep := ","
-		if i == len(names)-1 {
-			sep = ""
-		}
-		fmt.Fprintf(&sb, "  (%s, [%s])%s\n", leanStr(n), strings.Join(q, ", "), sep)
+		sb.WriteString("]\n\n")
 	}
-	sb.WriteString("]\n\nend WS.Gen.Skeleton\n")
+	emit("per Go function: the language of primitive sequences along its paths from entry to exit, as the canonical minimal DFA of the source's ordered skeleton (paths.go).",
+		"ordered", names, func(n string) []string { return pathRows(ord[n]) })
+	// the declared side: the committed ordered skeleton the CIR program was written against
+	golden := map[string][]string{}
+	if b, err := os.ReadFile(goldenPath); err == nil {
+		json.Unmarshal(b, &golden)
+	}
+	var gnames []string
+	for n := range golden {
+		gnames = append(gnames, n)
+	}
+	sort.Strings(gnames)
+	emit("the committed ordered skeleton (cir/skeleton_ordered.json) as read by the translator.", "declaredTokens", gnames, func(n string) []string { return golden[n] })
+	emit("its path languages.", "declared", gnames, func(n string) []string { return pathRows(golden[n]) })
+	sb.WriteString("end WS.Gen.Skeleton\n")
 	return sb.String(), nil
 }
